@@ -20,4 +20,8 @@ PROPS = {
                 bound={"quick": 1, "thorough": 2}, budget={"quick": 120, "thorough": 900},
                 assumptions=E1_ASSUME,
                 explanation="callers with 1ms/5ms timeouts against every peer behaviour; oracle is causal: a caller whose own deadline timer has fired never needs a later event to return, and TIMED_OUT is never reported before the deadline"),
+    "C15": dict(run=e1.run, replay=e1.replay, harnesses=["life"], level="fault_enumeration",
+                bound={"quick": 2, "thorough": 3}, budget={"quick": 120, "thorough": 900},
+                assumptions=E1_ASSUME,
+                explanation="real fAdapterTransport + monitorRunner + BaseFTransportMonitor over an in-memory stream; every cut offset x fault kind of a two-frame stream, 2-session failure histories, reopen answers, policies MaxReopenAttempts 0..2, user lifecycle scripts; all schedules up to the deviation bound"),
 }
